@@ -138,9 +138,11 @@ func rwGen(seed int64, n int, args []string, out *json.Encoder) {
 			var o rwOp
 			switch r := rng.Intn(10); {
 			case r < 2:
+				// any code, the informational ones included: the wrapper treats a status as a status (what net/http
+				// makes of 1xx on the wire is below the underlying writer)
 				o = rwOp{Op: "WriteHeader", Code: 100 + rng.Intn(500)}
-				if o.Code < 200 { // 1xx are informational for net/http; keep to final codes
-					o.Code += 100
+				if rng.Intn(6) == 0 {
+					o.Code = []int{100, 102, 103, 101, 199}[rng.Intn(5)]
 				}
 			case r < 5:
 				nn := rng.Intn(40)
